@@ -492,7 +492,10 @@ ADDENDA = {
            "by branch_less_code_objects must be reported executed exactly when it was entered.",
     "C05": "Raising operands raise ValueError as well as BaseException-only exceptions (SystemExit, a custom one).",
     "C06": "The accessors are also queried in two other orders (branching nodes first, reverse) on fresh CDGs.",
-    "C09": "Family D: 7 control-flow shapes for f x the same for g x {g called after / before f's structure}.",
+    "C09": "Family D: 7 control-flow shapes for f x the same for g x {g called after / before f's structure}. Family E: "
+           "every f that calls g x every g that stores the global (state flows across a nested call, then g runs again).",
+    "C11": "Lifetime leg: every ordered pair and triple of alphabet tests analysed through short-lived result objects "
+           "(analysed, dropped, replaced): the merge depends only on the traces handed in.",
     "C10": "Conformance leg: the same oracle on real execution results of corpus populations (behind a replaying "
            "executor), and every real trace must lie inside the abstract trace domain (else harness error).",
     "C12": "Additional suite roots: two live suites after a crossover between them (x = x.cross_over(clone), re-evaluated).",
